@@ -1734,6 +1734,23 @@ def explore(
     return res
 
 
+def _harness_callable_names(here, frames):
+    """names mentioned in a signature-mismatch TypeError that belong to harness classes/functions:
+    'NP13.full() got an unexpected keyword argument' names a stand-in although the raising frame is
+    the library's call site"""
+    import sys
+
+    out = set()
+    for name, mod in list(sys.modules.items()):
+        f = getattr(mod, "__file__", None)
+        if f and os.path.abspath(f).startswith(here):
+            for k, v in list(vars(mod).items()):
+                if isinstance(v, type) or callable(v):
+                    out.add(k + ".")
+                    out.add(k + "(")
+    return out
+
+
 def run_concrete(harness: Callable[[], Any], model_vals: dict, expected_exc: tuple = ()):
     """Replay: run the harness with plain Python values.  Returns (failed_labels, exception)."""
     c = Ctx(model_vals=model_vals)
@@ -1751,7 +1768,19 @@ def run_concrete(harness: Callable[[], Any], model_vals: dict, expected_exc: tup
             if not isinstance(e, expected_exc):
                 import traceback
 
-                exc = (type(e).__name__, str(e)[:300], traceback.format_exc(limit=-5)[-1200:])
+                # where was it raised?  An interface error (TypeError / AttributeError / ...) raised
+                # INSIDE a stand-in of the harness, or by the library calling a stand-in with a
+                # signature it does not know, says the stand-in is incomplete -- not that the
+                # library failed
+                frames = traceback.extract_tb(e.__traceback__)
+                last = frames[-1].filename if frames else ""
+                here = os.path.dirname(os.path.abspath(__file__))
+                in_harness = os.path.abspath(last).startswith(here)
+                sig_mismatch = isinstance(e, TypeError) and ("unexpected keyword argument" in str(e) or "positional argument" in str(e)) and any(
+                    nm in str(e) for nm in _harness_callable_names(here, frames)
+                )
+                origin = "stand-in" if (isinstance(e, (TypeError, AttributeError, NotImplementedError)) and (in_harness or sig_mismatch)) else "library"
+                exc = (type(e).__name__, str(e)[:300], traceback.format_exc(limit=-5)[-1200:], origin)
     finally:
         Ctx.cur = prev
     return c.concrete_failures, exc
